@@ -10,6 +10,22 @@ from snaxc.dialects import snax
 from snaxc.util.dispatching_rules import dispatch_to_compute, dispatch_to_dm
 
 
+def innermost_common_for(a: Operation, b: Operation) -> scf.ForOp | None:
+    """The innermost scf.for whose body contains both operations, at any nesting depth.
+    The next iteration of this loop brings the later operation back before the earlier one."""
+    ancestors_of_b: list[Operation] = []
+    parent = b.parent_op()
+    while parent is not None:
+        ancestors_of_b.append(parent)
+        parent = parent.parent_op()
+    parent = a.parent_op()
+    while parent is not None:
+        if isinstance(parent, scf.ForOp) and any(parent is x for x in ancestors_of_b):
+            return parent
+        parent = parent.parent_op()
+    return None
+
+
 class InsertSyncBarrier(ModulePass):
     """This pass inserts  snax synchronisation barriers in a program.
     Synchronisation barriers are required when data is shared between
@@ -49,17 +65,13 @@ class InsertSyncBarrier(ModulePass):
 
                     if dispatch_to_dm(op_in_module, ctx) and not dispatch_to_dm(op_use.operation, ctx):
                         ops_to_sync.append(op_use.operation)
-                        if op_in_module.parent_op() == op_use.operation.parent_op() and isinstance(
-                            for_op := op_in_module.parent_op(), scf.ForOp
-                        ):
+                        if (for_op := innermost_common_for(op_in_module, op_use.operation)) is not None:
                             assert isinstance(for_op.body.block.last_op, scf.YieldOp)
                             ops_to_sync.append(for_op.body.block.last_op)
 
                     if dispatch_to_compute(op_in_module, ctx) and not dispatch_to_compute(op_use.operation, ctx):
                         ops_to_sync.append(op_use.operation)
-                        if op_in_module.parent_op() == op_use.operation.parent_op() and isinstance(
-                            for_op := op_in_module.parent_op(), scf.ForOp
-                        ):
+                        if (for_op := innermost_common_for(op_in_module, op_use.operation)) is not None:
                             assert isinstance(for_op.body.block.last_op, scf.YieldOp)
                             ops_to_sync.append(for_op.body.block.last_op)
 
